@@ -59,6 +59,7 @@ type PRes struct {
 	Hdr416         string      `json:"hdr416,omitempty"`           // cache headers of a 416 answer: "" (the resource's own) | "none" | "no-store" | "max-age=3600"
 	CondMode       string      `json:"cond,omitempty"`             // "304" (default: proper revalidation) | "200" | "404" | "500"
 	AbortAfterHead bool        `json:"abort_after_head,omitempty"` // the origin sends the complete head and drops the connection before the first body byte (AbortN times)
+	CondDelayMs    int64       `json:"cond_delay,omitempty"`       // a 304 is given only after this many milliseconds
 	LastModForm    string      `json:"lastmod_form,omitempty"`     // "" IMF-fixdate | rfc850 | asctime (obsolete forms a recipient must accept) | junk
 	Gzip           bool        `json:"gzip,omitempty"`             // the origin compresses the representation (Content-Encoding: gzip) for requests that accept gzip
 	EvictOnCond    bool        `json:"evict_on_cond,omitempty"`    // the stored entries are deleted while a conditional request for this resource is at the origin
@@ -530,6 +531,10 @@ func (w *proxyWorld) originHandler(rw http.ResponseWriter, req *http.Request) {
 			if matchValidators(req, etag, lastMod, w.versionBirth(ri, v)) {
 				status = 304
 				out = nil
+				if r.CondDelayMs > 0 {
+					// an origin that takes its time over a revalidation
+					w.sim.WaitUntil("harness:origin-slow-304", time.Now().Add(time.Duration(r.CondDelayMs)*time.Millisecond))
+				}
 			}
 		case "404":
 			status, out = 404, []byte("gone\n")
